@@ -168,6 +168,66 @@ pub fn wrapped_forms(canon: &[u8]) -> Vec<Vec<u8>> {
     out
 }
 
+/// A value whose text form holds the digit pairs "FF", "AA" and "00" in the body.
+pub fn ff_image(v: &dyn Var, rng: &mut Rng) -> Vec<u8> {
+    let mut a = image(v, rng);
+    let n = a.len();
+    a[n - 1] = 0xff;
+    a[n - 2] = 0xaa;
+    a[n - 3] = 0x00;
+    a[n - 4] = 0xff;
+    a
+}
+
+/// The text with one digit, one digit pair or a prefix character replaced by a Unicode character that LOOKS
+/// like it or whose upper / lower case mapping IS it: U+FB00 (its upper case is "FF"), full-width forms,
+/// Cyrillic and Greek look-alikes, Roman numerals, mathematical digits, the Kelvin sign, long s, dotless i.
+/// Every result is valid UTF-8 and never a valid hash text.
+pub fn confusables(canon: &[u8]) -> Vec<Vec<u8>> {
+    let text = match std::str::from_utf8(canon) {
+        Ok(t) => t,
+        Err(_) => return Vec::new(),
+    };
+    let mut out = Vec::new();
+    let pairs: [(&str, &[&str]); 4] = [
+        ("FF", &["\u{fb00}", "\u{ff26}\u{ff26}"]),
+        ("AA", &["\u{410}\u{410}", "\u{391}A"]),
+        ("00", &["\u{ff10}0", "\u{1d7ce}0", "\u{660}0"]),
+        ("T1", &["\u{ff34}1", "\u{422}1", "T\u{ff11}", "\u{3a4}1", "T\u{217c}"]),
+    ];
+    for (from, tos) in pairs.iter() {
+        for to in tos.iter() {
+            // the last occurrence (the body) and the first one
+            if let Some(i) = text.rfind(from) {
+                out.push(format!("{}{}{}", &text[..i], to, &text[i + from.len()..]).into_bytes());
+            }
+            if let Some(i) = text.find(from) {
+                out.push(format!("{}{}{}", &text[..i], to, &text[i + from.len()..]).into_bytes());
+            }
+        }
+    }
+    let singles: [(char, &[&str]); 8] = [
+        ('A', &["\u{410}", "\u{391}", "\u{ff21}", "\u{ff41}"]),
+        ('B', &["\u{412}", "\u{392}", "\u{df}"]),
+        ('C', &["\u{421}", "\u{216d}", "\u{217d}"]),
+        ('D', &["\u{216e}", "\u{217e}"]),
+        ('E', &["\u{415}", "\u{395}"]),
+        ('F', &["\u{ff26}", "\u{17f}"]),
+        ('1', &["\u{131}", "\u{217c}", "\u{ff11}"]),
+        ('5', &["\u{ff15}", "\u{1d7d3}"]),
+    ];
+    for (from, tos) in singles.iter() {
+        if let Some(i) = text.char_indices().skip(2).find(|(_, c)| c == from).map(|(i, _)| i) {
+            for to in tos.iter() {
+                out.push(format!("{}{}{}", &text[..i], to, &text[i + 1..]).into_bytes());
+            }
+        }
+    }
+    out.push(text.replace('K', "\u{212a}").into_bytes());
+    out.retain(|s| s != canon);
+    out
+}
+
 pub fn non_ascii_same_length(canon: &[u8]) -> Vec<Vec<u8>> {
     let mut out = Vec::new();
     let l = canon.len();
@@ -666,6 +726,32 @@ pub fn run_c05(out: &mut Out, rng: &mut Rng, thorough: bool, only: Option<&str>)
                 }
             }
         }
+        // (b5) TWO header fields each holding one non-hexadecimal character (every pair of fields, both positions)
+        {
+            let canon = hex_of(v, &image(v, rng), true);
+            let fields = v.ck_len() + 2;
+            for f1 in 0..fields {
+                for f2 in (f1 + 1)..fields {
+                    for (p1, p2) in [(0usize, 0usize), (0, 1), (1, 0), (1, 1)] {
+                        let mut s = canon.clone();
+                        s[2 + 2 * f1 + p1] = *rng.pick(b"Gg:/@`xZ");
+                        s[2 + 2 * f2 + p2] = *rng.pick(b"Gg:/@`xZ");
+                        emit_parse(out, v, "bytes", "None", &s);
+                        if thorough {
+                            emit_parse(out, v, "bytes", "Empty", &s[2..]);
+                        }
+                    }
+                }
+            }
+        }
+        // (b6) Unicode look-alikes and characters whose case mapping yields hexadecimal digits (see `confusables`)
+        for with_prefix in [true, false] {
+            let canon = hex_of(v, &ff_image(v, rng), with_prefix);
+            for s in confusables(&canon) {
+                emit_parse(out, v, "with", "None", &s);
+                emit_parse(out, v, "fromstr", "None", &s);
+            }
+        }
         // (c) two simultaneous faults; (d) near-miss prefixes
         for _ in 0..(if thorough { 60 } else { 12 }) {
             let img = image(v, rng);
@@ -808,6 +894,14 @@ pub fn run_c06(out: &mut Out, rng: &mut Rng, thorough: bool, only: Option<&str>)
         for b in [vec![0u8; n], vec![0xffu8; n]] {
             emit_frombytes(out, v, &b, "slice");
             emit_frombytes(out, v, &b, "array");
+        }
+        // cross-format confusion: the TEXT forms handed to the binary parser (they have other lengths: rejected)
+        {
+            let img = image(v, rng);
+            for t in [hex_of(v, &img, true), hex_of(v, &img, false), recase(&hex_of(v, &img, true), rng, 1), recase(&hex_of(v, &img, false), rng, 1)] {
+                emit_frombytes(out, v, &t, "slice");
+                emit_frombytes(out, v, &t[..n.min(t.len())], "slice");
+            }
         }
         // header fields swept (these are the fields the strict parser looks at)
         let base = image(v, rng);
@@ -1075,6 +1169,19 @@ pub fn run_c13(out: &mut Out, rng: &mut Rng, thorough: bool, only: Option<&str>)
                 for r in &forms {
                     emit_cmpstr(out, v, l, r, v.name() == "Normal" && rng.chance(1, 3));
                 }
+            }
+        }
+        // Unicode look-alikes / case-mapping specials on the right, on the left and on both sides
+        {
+            let canon = hex_of(v, &ff_image(v, rng), true);
+            for w in confusables(&canon) {
+                emit_cmpstr(out, v, &canon, &w, false);
+                emit_cmpstr(out, v, &w, &canon, false);
+                emit_cmpstr(out, v, &w, &w, false);
+            }
+            let plain = hex_of(v, &ff_image(v, rng), false);
+            for w in confusables(&plain).into_iter().take(if thorough { 100 } else { 8 }) {
+                emit_cmpstr(out, v, &canon, &w, v.name() == "Normal");
             }
         }
         // a valid text wrapped in strippable junk, on either side and on both
